@@ -287,8 +287,9 @@ theorem c01_cleanup_round_partial (ia ib : Seq) (ma mb : U16) (simultaneous : Bo
     anything, any amount of text may be unsent, the timers are anywhere.
 
     With `n = ⌈max (unsent_A, unsent_B) / 65535⌉` (given as `unsent ≤ 65535 · n`) TWO fair rounds — a clean-up round of
-    one phase, `fairRound 1`, then `fairRound (2n + 2)`: `2n + 5` … at most `2⌈unsent / 65535⌉ + 3` exchange phases
-    and four timer expiries in all — end in a `Done` state: `delivered = submitted` in both directions, all queues,
+    one phase, `fairRound 1`, then `fairRound (2n + 2)`: `2⌈max unsent / 65535⌉ + 3` exchange phases and four timer
+    expiries in all, a bound that depends on the unsent text only (one phase re-sends a whole retransmission queue, at most
+    65535 bytes, and drains a whole reorder heap) — end in a `Done` state: `delivered = submitted` in both directions, all queues,
     heaps, buffers and unsent texts empty, `segments()` returns `[]` on both sides, and every further fair round
     ends `Done` again with the history unchanged.
 
